@@ -136,6 +136,26 @@ pub fn model_differential(ops: &TypeOps, b: &[u8], origin: &str, rep: &mut Repor
 			},
 		}
 	}
+	// ... and so must a stream reader (an input that cannot tell its remaining length and may run dry
+	// in the middle of a multi-byte request), sampled
+	if (b.len() + rep.evaluations as usize) % 8 == 3 {
+		rep.count("stream_reader_decodes");
+		match catch(|| {
+			let mut r = parity_scale_codec::IoReader(std::io::Cursor::new(b));
+			(d.dynamic)(&mut r)
+		}) {
+			Err(p) => fail(rep, "decode-panic:IoReader", format!("decoding through IoReader panicked: {p}")),
+			Ok(r) => match (&model, r) {
+				(Ok((mv, _)), Some(rv)) =>
+					if !same_val(ops, mv, &rv) {
+						fail(rep, "decode-value:IoReader", format!("specification decodes {} but the crate, reading from IoReader, returned {}", show_val(mv), show_val(&rv)));
+					},
+				(Ok(_), None) => fail(rep, "decode-rejects-valid:IoReader", "a valid encoding was rejected when read through IoReader".into()),
+				(Err(why), Some(rv)) => fail(rep, &format!("decode-accepts-invalid:IoReader:{}", class_name(*why)), format!("malformed input ({}) was accepted as {} when read through IoReader", class_name(*why), show_val(&rv))),
+				(Err(_), None) => {},
+			},
+		}
+	}
 	if rep.want_sample() && b.len() >= 2 {
 		rep.sample(sample_json(ops, origin, b, &format!("model: {}", match &model { Ok(_) => "accept".to_string(), Err(e) => class_name(*e).to_string() })));
 	}
